@@ -472,6 +472,16 @@ pub fn run_c12(tier: Tier) -> i32 {
             );
             modules.insert(2_000_000 + hi * 10 + bi, text);
         }
+        // tokens that borrow from the input through match_()
+        if *tokkind == "tok" || *tokkind == "&'input str" {
+            let mk = if *tokkind == "tok" { "Tok(m)" } else { "m" };
+            let text = format!(
+                "#[allow(dead_code)]\npub struct Pair<'x, 'y>(pub &'x str, pub &'y str);\n#[allow(dead_code)]\npub struct Tok<'t>(pub &'t str);\nlexgen::lexer! {{\n{}\nrule Init {{ ['a'-'z']+ => |lexer| {{ let m = lexer.match_(); lexer.return_({}) }}, ' ' => |lexer| {{ lexer.reset_match(); lexer.continue_() }}, '[' => |lexer| lexer.switch(LexerRule::In), }} rule In {{ ']' => |lexer| {{ let m = lexer.match_(); lexer.switch_and_return(LexerRule::Init, {}) }}, _ => |lexer| lexer.continue_(), }}\n}}\n{}",
+                h, mk, mk,
+                dummy_run()
+            );
+            modules.insert(2_000_000 + hi * 10 + 5, text);
+        }
     }
     let n_modules = modules.len();
     let build = genc::build_modules(&format!("c12_{}_{}", tier.name(), seed()), modules.clone(), 16);
